@@ -432,6 +432,18 @@ def main():
                     if hit:
                         stats["%s marker lines" % lang] += 1
                         deviate(lang, "marker: %s emits '%s'" % (hit[1], re.sub(r"\s+", " ", line.strip())[:80]), pid, "%s:%d" % (fn, ln))
+            # (1c) Lua: every ProtoField the dissector functions use is declared, every sub-dissector called is defined
+            if lang == "lua":
+                for fn, txt in files.items():
+                    declared = set(re.findall(r"^\s*(\w+) = ProtoField\.", txt, re.M))
+                    used = set(re.findall(r"\bfields\.(\w+)", txt))
+                    for x in sorted(used - declared):
+                        deviate(lang, "lua: fields.%s is used by a dissector function but no ProtoField is declared under that name" % x, pid, fn)
+                    defined = set(re.findall(r"^local function (dissect_\w+)\(", txt, re.M))
+                    called = set(re.findall(r"\b(dissect_\w+)\(", txt))
+                    for x in sorted(called - defined):
+                        deviate(lang, "lua: %s is called but never defined" % x, pid, fn)
+                    stats["lua fields used"] += len(used)
             # (3) syntax
             if not args.no_toolchains:
                 root = os.path.join(scratch, lang)
